@@ -1,5 +1,7 @@
 import Rcgen.Theorems.C03
 import Rcgen.Proofs.Validate
+import Rcgen.Proofs.Spki
+import Rcgen.Theorems.C11
 /-
   C03, second part (it needs the RFC 5280 §6.1 validator and the decoded-certificate record of
   C02/C12, which sit above Theorems/C03.lean in the import graph; same namespace).
@@ -127,6 +129,25 @@ theorem imported_chain_rejected (crypto kc : Bool) (c : TbsCert) (p' : CertParam
     validate true kc [c, modelTbs ⟨H, leaf, leafKey, issuerOf ⟨p', caKey⟩⟩] t u = false := by
   rw [imported_chain_verdict crypto true kc c p' h leaf leafKey caKey H hcust t u]
   rcases hbad with hb | hb | hb <;> simp [hb]
+
+/-- **a certificate issued to a public key alone is the certificate issued to the key pair**: for
+    every key of every algorithm of the build, parameters and issuer, issuing to what
+    `SubjectPublicKeyInfo::from_der` makes of the key's exported SubjectPublicKeyInfo gives the
+    same to-be-signed certificate — same SubjectPublicKeyInfo, same subject key identifier (the
+    configured digest of it), same automatic serial — as issuing to the key.  So a CA certified
+    for its public key alone carries the subject key identifier its own issuances will name. -/
+theorem issued_to_public_key_alone (b : Backend) (H : Hashes) (p : CertParams) (k k' : PubKey)
+    (i : Issuer) (ha : k.alg ∈ publicAlgs b) (hl : (encode (spkiNode k)).length < 256 ^ 126)
+    (h : spkiFromDer b (spkiDer k) = some k') :
+    tbsCertificate H p k' i = tbsCertificate H p k i := by
+  obtain ⟨a, h1, h2, _⟩ := C11.spki_import_of_export b k ha hl
+  rw [h1] at h
+  cases h
+  have hn : spkiNode ⟨a, k.raw⟩ = spkiNode k := by simp [spkiNode, h2]
+  have hd : spkiDer ⟨a, k.raw⟩ = spkiDer k := by simp [spkiDer, hn]
+  simp only [tbsCertificate, tbsCertificateFields, certExtensions, caExts, skiExt, serialNode,
+    autoSerialBytes, hn, hd]
+
 
 /-! non-vacuity: a CA content with two RDNs, basicConstraints cA, an SKI — imports, and the
     chain to a default leaf is accepted in 2025 -/
